@@ -130,6 +130,7 @@ CANARIES = {
         ("followedby-absorbs-and", "stix2/equivalence/pattern/transform/observation.py", "text", ["                    elif type(child1) is type(child2):", "                    elif isinstance(child1, _CompoundObservationExpression):"], "C09.absorption"),
     ],
     "C10": [
+        ('empty-binary-constant', 'stix2/patterns.py', 'text', ['        if not value:\n            # (Valid base64, for no bytes at all', '        if value is None:\n            # (Valid base64, for no bytes at all'], 'C10.binary-literal-form'),
         ('quoted-step-groups-swapped', 'stix2/patterns.py', 'text', ['return ListObjectPathComponent(name, m.group(2))', 'return ListObjectPathComponent(m.group(2), name)'], 'C10.path-text'),
         ('and-group-dropped', 'stix2/pattern_visitor.py', 'text', ['            return self.instantiate("ParentheticalExpression", children[1])\n        else:', '            return children[1]\n        else:'], 'C10.operator-table'),
         ('set-literal-loses-members', 'stix2/patterns.py', 'text', ['        self.value = [x if isinstance(x, _Constant) else make_constant(x) for x in values]', '        self.value = [x if isinstance(x, _Constant) else make_constant(x) for x in values if x is not None]'], 'C10.operator-table'),
